@@ -30,6 +30,7 @@ import (
 
 	"github.com/alicebob/miniredis/v2"
 	"github.com/alicebob/miniredis/v2/server"
+	red "github.com/redis/go-redis/v9"
 	"github.com/zeromicro/go-zero/core/breaker"
 	"github.com/zeromicro/go-zero/core/logx"
 	"github.com/zeromicro/go-zero/core/stores/redis"
@@ -183,6 +184,17 @@ func verifPark(mr *miniredis.Miniredis) {
 	verifServersMu.Unlock()
 }
 
+// The caller's context becomes done DURING the store call, with a healthy store, without waiting
+// for any timeout: when the call's script command arrives, the hook (optionally runs it on a side
+// connection: "the store ran the script, the reply got lost"), makes the context done and drops the
+// connection.  go-redis sees EOF, wants to retry, and its back-off sleep - which selects on
+// ctx.Done() - returns ctx.Err() at once: exactly what a request gets whose deadline runs out while
+// it queues for a pooled connection or sleeps before a retry.
+type verifDrop struct {
+	ran  bool
+	fire func()
+}
+
 type verifStore struct {
 	mr   *miniredis.Miniredis
 	hard bool
@@ -193,6 +205,9 @@ type verifStore struct {
 	armed string // hook: forged reply for the next EVALSHA / EVAL
 	hits  int
 	pings int // PINGs of monitor goroutines that failed during an outage
+	drop        *verifDrop    // hook: the caller's context becomes done during the next script command
+	dropHits    int
+	side        *red.Client   // a plain second connection to the server (to run a script "whose reply is lost")
 	pgate       bool          // hook: hold the reply of every PING that arrives while the store answers
 	pheld       int
 	pgateCh     chan struct{}
@@ -222,11 +237,38 @@ func (s *verifStore) hook(c *server.Peer, cmd string, args ...string) bool {
 		s.nSha++
 	} else if cmd == "EVAL" {
 		s.nEval++
-		if a == "" && !d {
-			s.loaded = true
-		}
 	}
 	s.mu.Unlock()
+	s.mu.Lock()
+	dr := s.drop
+	if dr != nil && a == "" && !d && ((cmd == "EVALSHA" && s.loaded) || cmd == "EVAL") {
+		s.drop = nil
+		s.dropHits++
+	} else {
+		dr = nil
+	}
+	s.mu.Unlock()
+	if dr != nil {
+		if dr.ran {
+			s.mu.Lock()
+			if s.side == nil {
+				s.side = red.NewClient(&red.Options{Addr: s.mr.Addr(), MaxRetries: -1})
+			}
+			side := s.side
+			s.mu.Unlock()
+			full := make([]any, 0, len(args)+1)
+			full = append(full, cmd)
+			for _, x := range args {
+				full = append(full, x)
+			}
+			if _, e := side.Do(context.Background(), full...).Result(); e != nil && e != red.Nil && os.Getenv("VERIF_DEBUG") != "" {
+				println("side:", cmd, e.Error())
+			}
+		}
+		dr.fire()
+		c.Close()
+		return true
+	}
 	if wait != nil {
 		select {
 		case <-wait:
@@ -267,6 +309,11 @@ func (s *verifStore) hook(c *server.Peer, cmd string, args ...string) bool {
 			c.WriteError("ERR verif unknown fault")
 		}
 		return true
+	}
+	if !d && cmd == "EVAL" {
+		s.mu.Lock()
+		s.loaded = true // this EVAL is executed by the server: the script is in its cache from now on
+		s.mu.Unlock()
 	}
 	if d {
 		if cmd == "PING" {
@@ -326,13 +373,14 @@ func (s *verifStore) setUp() error {
 // a request context whose deadline "passes" exactly when the executor says so (no real waiting):
 // valid during the call, Err() = context.DeadlineExceeded from the moment the call has returned
 type verifDeadlineCtx struct {
-	mu   sync.Mutex
-	done chan struct{}
-	err  error
-	at   time.Time
+	mu     sync.Mutex
+	done   chan struct{}
+	err    error
+	at     time.Time
+	cancel bool // a cancel-only context: no deadline, Err() becomes context.Canceled
 }
 
-func (c *verifDeadlineCtx) Deadline() (time.Time, bool) { return c.at, true }
+func (c *verifDeadlineCtx) Deadline() (time.Time, bool) { return c.at, !c.cancel }
 func (c *verifDeadlineCtx) Done() <-chan struct{}       { return c.done }
 func (c *verifDeadlineCtx) Value(any) any               { return nil }
 func (c *verifDeadlineCtx) Err() error {
@@ -345,6 +393,9 @@ func (c *verifDeadlineCtx) expire() {
 	defer c.mu.Unlock()
 	if c.err == nil {
 		c.err = context.DeadlineExceeded
+		if c.cancel {
+			c.err = context.Canceled
+		}
 		close(c.done)
 	}
 }
@@ -364,6 +415,10 @@ func (x *verifCtxs) make(kind string) (context.Context, func()) {
 		ctx, cancel := context.WithCancel(context.Background())
 		cancel()
 		return ctx, func() {}
+	case "during:deadline", "during:cancel":
+		// live on entry; the executor makes it done at a chosen instant DURING the store call (see verifDrop)
+		ctx := &verifDeadlineCtx{done: make(chan struct{}), at: time.Now().Add(time.Hour), cancel: kind == "during:cancel"}
+		return ctx, ctx.expire
 	case "expired": // the deadline has passed before the call is made
 		ctx := &verifDeadlineCtx{done: make(chan struct{}), at: time.Now().Add(-time.Second)}
 		ctx.expire()
@@ -560,6 +615,9 @@ func verifTokenOnce(c verifCase) (out verifOut) {
 			}
 		}
 		verifSync(lims, 300*time.Millisecond, nil)
+		if st.side != nil {
+			st.side.Close()
+		}
 		verifPark(mr)
 	}()
 	expect := make([]bool, c.N)
@@ -614,6 +672,13 @@ func verifTokenOnce(c verifCase) (out verifOut) {
 			loaded := st.loaded
 			st.mu.Unlock()
 			ctx, done := cx.make(vstr(o, "ctx"))
+			during := strings.HasPrefix(vstr(o, "ctx"), "during:")
+			if during {
+				ran, _ := o["ran"].(bool)
+				st.mu.Lock()
+				st.drop, st.dropHits = &verifDrop{ran: ran, fire: done}, 0
+				st.mu.Unlock()
+			}
 			var ok bool
 			switch vstr(o, "api") {
 			case "AllowNCtx":
@@ -626,6 +691,19 @@ func verifTokenOnce(c verifCase) (out verifOut) {
 				ok = lims[i].AllowN(time.UnixMilli(now), n)
 			}
 			done()
+			if during {
+				st.mu.Lock()
+				hits := st.dropHits
+				st.drop = nil
+				st.mu.Unlock()
+				want := 0
+				if before {
+					want = 1
+				}
+				if hits != want {
+					out.Disturbed = true // the call never reached the store (cut off by the breaker)
+				}
+			}
 			if fault != "" {
 				want := 0
 				if before {
